@@ -64,7 +64,7 @@ def check_network_power(case, r: R):
 
 @st.composite
 def network_case(draw):
-    return {'net': draw(gen.network(nmin=2, nmax=6, max_branches=10, min_sources=1))}
+    return {'net': draw(gen.network(nmin=2, nmax=6, max_branches=10, min_sources=1, opens_shorts=draw(st.integers(0, 2)) == 0))}
 
 
 def check_circuit_power(case, r: R):
